@@ -15,12 +15,15 @@ func scriptedDialer(srv *RefServer) func(ctx context.Context, network, address s
 }
 
 // runScramSequence plays one adversarial server message sequence against a SCRAM client
-func runScramSequence(c *Ctx, mech string, seq []string) {
+func runScramSequence(c *Ctx, mech string, seq []string) { runScramSequenceWith(c, mech, seq, false) }
+
+// custom: the mechanism is ONE smtp.Auth value handed to the Client (it serves every dial)
+func runScramSequenceWith(c *Ctx, mech string, seq []string, custom bool) {
 	const user, pass = "scram-user", "scram-correct-password"
 	salt := []byte("0123456789abcdef")
 	iter := 32
 	sc := &DialScenario{Host: "verif.example", Policy: 2, AuthType: mech, User: user, Pass: pass, Script: map[int]SrvAction{},
-		Caps: []string{"AUTH SCRAM-SHA-1 SCRAM-SHA-256"}}
+		Caps: []string{"AUTH SCRAM-SHA-1 SCRAM-SHA-256"}, CustomAuth: custom}
 	var clientFirstBare, cnonce, serverFirst, authMsg string
 	var staleAuthMsg string // the auth message of an exchange the client has abandoned (restart)
 	curIter, staleIter := iter, iter
@@ -189,7 +192,7 @@ func runScramSequence(c *Ctx, mech string, seq []string) {
 		run = run.Second
 	}
 	c.rep.OracleChecked++
-	in := map[string]interface{}{"mechanism": mech, "server_sequence": seq}
+	in := map[string]interface{}{"mechanism": mech, "server_sequence": seq, "one_auth_value_for_every_dial": custom}
 	// a retry on the same Auth object (second empty challenge) must use a fresh nonce
 	seen := map[string]bool{}
 	for _, nn := range run.ScramNonces {
